@@ -6,6 +6,7 @@ In-spec joint actions are `action : List Nat` with every component `< 4`; they r
 `action.map Int.ofNat`.  The running example is a 2×3 grid with one wall and two agents.
 -/
 import JumanjiModel.Env.Cleaner.Lemmas
+import JumanjiModel.Env.Cleaner.BoundsLemmas
 open Jm Cleaner
 
 namespace Props.CleanerEx
@@ -156,3 +157,37 @@ theorem cleaner_clean_refines (g : Jx.Grid Int) (locs : List Pos) (h : ∀ p ∈
 
 example : Consistent CleanerEx.cfg CleanerEx.st ∧ ∀ a ∈ [1, 3], a < 4 := by decide +kernel
 end Props.C09
+
+namespace Props.C01
+/-- the reset observation (generator output `g`, mask recomputed, `restart`) has every leaf inside the interval
+`obsBounds cfg` lists for it: tiles 0..2, locations in `[0, max(rows, cols) − 1]`, mask 0..1,
+`step_count = 0 ≤ time_limit`.  Hypotheses: the generated grid holds tiles 0/1/2, the generated agents stand on
+cells of the grid (`TilesAndAgentsOK`), the counter starts at 0. -/
+theorem cleaner_reset_obs_in_bounds (cfg : Cfg) (g : State) (hk : TilesAndAgentsOK cfg g)
+    (h0 : g.stepCount = 0) (htl : 0 ≤ cfg.timeLimit) : ObsInBounds cfg (Cleaner.reset cfg g).2.obs :=
+  Cleaner.reset_obs_in_bounds cfg g hk h0 htl
+
+/-- every step taken from a consistent state of a running episode (`0 ≤ step_count < time_limit`) with any
+in-spec joint action (legal or not) emits an observation inside `obsBounds cfg` — including the terminal
+step, where `step_count = time_limit` -/
+theorem cleaner_step_obs_in_bounds (cfg : Cfg) (s : State) (hC : Consistent cfg s) (h0 : 0 ≤ s.stepCount)
+    (h1 : s.stepCount < cfg.timeLimit) (action : List Nat) (hl : action.length = s.agents.length)
+    (ha : ∀ a ∈ action, a < 4) : ObsInBounds cfg (step cfg s (action.map Int.ofNat)).2.obs :=
+  Cleaner.step_obs_in_bounds cfg s hC h0 h1 action hl ha
+
+/-- the reset state is consistent (so the step theorem applies along every episode, with
+`cleaner_step_consistent`) when the generator delivers a well-shaped grid of tiles 0/1/2 and `num_agents`
+agents on the clean origin -/
+theorem cleaner_reset_consistent (cfg : Cfg) (g : State)
+    (hs : Jx.Grid.shaped g.grid cfg.numRows cfg.numCols = true)
+    (ht : Jx.Grid.all (fun v => v == DIRTY || v == CLEAN || v == WALL) g.grid = true)
+    (hag : g.agents = List.replicate cfg.numAgents (0, 0))
+    (hp : ∀ p ∈ g.agents, inGrid cfg p ∧ tile g.grid p = CLEAN) : Consistent cfg (Cleaner.reset cfg g).1 :=
+  Cleaner.reset_consistent cfg g hs ht hag hp
+
+example : Consistent Props.CleanerEx.cfg Props.CleanerEx.st ∧ 0 ≤ Props.CleanerEx.st.stepCount ∧
+    Props.CleanerEx.st.stepCount < Props.CleanerEx.cfg.timeLimit := by decide +kernel
+/-- the bound on `step_count` is attained on the step that reaches the limit -/
+example : (step { Props.CleanerEx.cfg with timeLimit := 4 } Props.CleanerEx.st [1, 1]).2.obs.stepCount = 4 := by
+  decide +kernel
+end Props.C01
